@@ -37,9 +37,16 @@ func vpSameRecs(a, b []vpRec) bool {
 // only the bytes near line (80) and buffer (4096) boundaries symbolic and the
 // rest a fixed filler, so that very long sequences stay tractable.
 func vpRecord(tag string, nameLen, seqLen, sparse int) *Fasta {
-	f := &Fasta{Name: vpBytes(tag+"name", nameLen)}
-	for _, b := range f.Name {
-		vpAssume(b != '\n' && b != '\r')
+	f := &Fasta{}
+	if nameLen >= 1000 {
+		// a name longer than bufio's buffer: symbolic only at its ends and
+		// around the 4096-byte boundaries
+		f.Name = vpSparse(tag+"name", nameLen, func(b byte) bool { return b != '\n' && b != '\r' })
+	} else {
+		f.Name = vpBytes(tag+"name", nameLen)
+		for _, b := range f.Name {
+			vpAssume(b != '\n' && b != '\r')
+		}
 	}
 	if sparse == 0 {
 		f.Sequence = vpBytes(tag+"seq", seqLen)
@@ -82,6 +89,10 @@ func VP_C01_RoundTrip() {
 		vpAssert(f.Write(&w) == nil, "Write succeeds")
 		txt, err := f.MarshalText()
 		vpAssert(err == nil && bytes.Equal(txt, w.b[before:]), "MarshalText and Write produce identical bytes")
+		// bytes handed out by MarshalText belong to the caller: a later call
+		// for another record must not disturb them
+		(&Fasta{Name: []byte("zz"), Sequence: []byte("TTTTTTTT")}).MarshalText()
+		vpAssert(bytes.Equal(txt, w.b[before:]), "bytes returned by MarshalText are not disturbed by a later MarshalText call")
 		// shape: '>' name line, then lines of 1..80 sequence bytes
 		out := w.b[before:]
 		ok := len(out) >= 2+len(f.Name) && out[0] == '>' && bytes.Equal(out[1:1+len(f.Name)], f.Name) && out[1+len(f.Name)] == '\n'
